@@ -277,7 +277,7 @@ example : create (failAt 22) stereo true {} = .ok none { count := 23, live := []
 /-- the per-channel calloc of the second channel (call 21): the first channel, fully built, is closed again -/
 example : create (failAt 21) stereo true {} = .ok none { count := 22, live := [], cache := [] } := by decide +kernel
 
-/-- first calloc of `initialise` fails: the other two are still made (24 … no: 4 calls), then everything is freed -/
+/-- the first calloc of `initialise` fails: the other two are still made (4 calls in all), then everything is freed -/
 example : create (failAt 1) stereo true {} = .ok none { count := 4, live := [], cache := [] } := by decide +kernel
 
 /-- what a successful stereo create returns -/
